@@ -132,6 +132,31 @@ def check(tier, seed):
                 mon.append(i)
             if a > 1 and b > 1 and gcd(a, b) not in (a, b):
                 distinct.add(l)
+    # ---- end-to-end: the parameters the assembled inbound / outbound servers really got (NewClusterConnection) ----
+    E2E = ["zz_verif_fakes_test.go", "zz_verif_e2e_test.go"]
+    STREAM = "/temporal.server.api.adminservice.v1.AdminService/StreamWorkflowReplicationMessages"
+    DESCRIBE = "/temporal.server.api.adminservice.v1.AdminService/DescribeCluster"
+    e_in, e_want = [], []
+    for a, b in [(4, 6), (8, 4), (3, 5)] + ([(16, 12), (7, 7)] if tier == "thorough" else []):
+        l = a * b // gcd(a, b)
+        e_in.append("SETUP transport=tcp acl=none mode=lcm local=%d remote=%d" % (a, b)); e_want.append("SETUP ok")
+        for side, c in (("remote", a), ("local", b)):      # remote callers are served by the local cluster (count a)
+            e_in.append("CALL side=%s method=%s" % (side, DESCRIBE)); e_want.append("resp=shards=%d" % l)
+            for s_ in range(1, l + 1):
+                e_in.append("CALL side=%s method=%s cshard=1 sshard=%d" % (side, STREAM, s_))
+                e_want.append("seen=2/%d>1/%d " % (s_, (s_ - 1) % c + 1))
+    err, e_out = L.run_impl("proxy", E2E, "TestVerifE2E", e_in, "c07e", timeout=900)
+    e_bad = []
+    if err:
+        ck.obligation("end-to-end wiring run", False, err)
+    else:
+        e_bad = [i for i, (o, wnt) in enumerate(zip(e_out, e_want)) if wnt not in o + " "]
+        ck.obligation("end-to-end: assembled inbound/outbound servers describe lcm(local,remote) and forward (s, r) as the model says (%d calls)" % len(e_in), not e_bad,
+                      "; ".join("%s -> %s (want %s)" % (e_in[i], e_out[i], e_want[i]) for i in e_bad[:3]))
+        for i in e_bad:
+            mon.append(len(lines))
+            lines.append(e_in[i]); impl.append(e_out[i]); model.append(e_want[i])
+    ck.cov["end_to_end_calls"] = len(e_in)
     ck.cov.update({"evaluations": len(lines), "distinct_nontrivial": len(distinct), "traces_validated_against_impl": len(lines),
                    "input_distribution": kinds})
     ck.samples = [{"op": lines[i], "impl": impl[i], "model": model[i]} for i in (0, len(lines) // 3, 2 * len(lines) // 3, len(lines) - 1)]
